@@ -5,4 +5,19 @@ from . import kit, ledger
 def run(ctx):
     res = ledger.run_ledger(ctx, "C05")
     kit.optimised_interpreter_probe(res, "ledger")
+    # the property's last sentence through the code path the node really assembles blocks with (MinerWatcher: a hand-out on one
+    # head, the head moved by a peer's block, the next hand-out): header rules of what comes out — the C12 harness, of which only
+    # the findings about the assembled block's header are C05's
+    from . import c12
+    r12 = c12.run(ctx)
+    kit.LAST_RESULT[0] = res
+    res.evaluations += r12.evaluations
+    res.nontrivial |= r12.nontrivial
+    res.count("miner_assembly_rounds_checked", r12.evaluations)
+    for v in r12.violations:
+        k = v.get("kind", "")
+        # (the clock corner — a head 30 s or more ahead of the miner's clock — is the known finding D5 of C12, where the miner's
+        # choice of timestamp is specified; it is not imported here)
+        if "not later than its parent" in k or "target" in k or "height" in k:
+            res.violations.append({**v, "kind": "the node's own block assembly (MinerWatcher): " + k})
     return res
